@@ -26,6 +26,17 @@ BAD = "@@BADBYTES@@"          # replaced by bytes that are invalid UTF-8 when th
 BAD_BYTES = b"\xff\xfe\xc3"
 FILE_DEFAULTS = {"sep": None, "header": True, "strict": False, "passthrough": False, "ambiguous": False}
 FIELD_LIMIT = 4096
+
+
+def _read_table(text, delim):
+    """The harness's OWN reading of a table (self-check of what it wrote, the file as the library left it).
+    The lowered csv field limit is a fault injected into the LIBRARY's reading; the harness reads without
+    it - a library that copes with over-long fields writes output the harness must be able to read."""
+    csv.field_size_limit(1 << 30)
+    try:
+        return list(csv.reader(io.StringIO(text, newline=""), delimiter=delim))
+    finally:
+        csv.field_size_limit(FIELD_LIMIT)
 FAULT_KINDS = ["strict_unconvertible", "no_delimiter", "missing_cell", "blank_row", "undecodable_bytes",
                "oversize_field"]
 SEPS = [None, None, ",", ";", "|", "\t"]
@@ -291,7 +302,7 @@ class C16Machine(Machine):
                 frows[k][fcol] = "b" + BAD + "d"
             elif kind == "oversize_field":
                 fcol = rng.randrange(len(frows[k]))
-                frows[k][fcol] = "L" * (csv.field_size_limit() + 1 + rng.randint(0, 3))
+                frows[k][fcol] = "L" * (FIELD_LIMIT + 1 + rng.randint(0, 3))
             op["fault"] = {"kind": kind, "row": k, "col": fcol}
             if kind in ("strict_unconvertible", "no_delimiter") and rng.random() < 0.4:
                 # retry on the same path after the failure, with more lenient flags
@@ -302,7 +313,7 @@ class C16Machine(Machine):
             kind = rng.choice(["undecodable_bytes", "oversize_field"])
             op = dict(copy.deepcopy(base), rows=copy.deepcopy(rows))
             j = rng.randrange(len(op["hdr"]))
-            op["hdr"][j] = ("b" + BAD + "d") if kind == "undecodable_bytes" else "L" * (csv.field_size_limit() + 2)
+            op["hdr"][j] = ("b" + BAD + "d") if kind == "undecodable_bytes" else "L" * (FIELD_LIMIT + 2)
             op["fault"] = {"kind": kind, "row": -1, "col": j}
             plan.append(op)
         pd_ops = []
@@ -491,7 +502,7 @@ class C16Machine(Machine):
                 with open(path, "rb") as f:
                     now = f.read()
                 try:
-                    table = list(csv.reader(io.StringIO(now.decode("utf-8"), newline=""), delimiter=op["sep"] or "\t"))
+                    table = _read_table(now.decode("utf-8"), op["sep"] or "\t")
                 except Exception:  # noqa: BLE001 - e.g. the undecodable-bytes fault is still in the file
                     table = None
                 if table is not None and (not op["header"] or table):
@@ -515,11 +526,12 @@ class C16Machine(Machine):
         st, pt, amb = op["strict"], op["passthrough"], op["ambiguous"]
         hdr, rows = op["hdr"], op["rows"]
         scalar = scalar_for(conv, func, amb)
-        limit = csv.field_size_limit()
+        csv.field_size_limit(FIELD_LIMIT)       # (whatever an earlier call left behind)
+        limit = FIELD_LIMIT
         # harness self-check: the bytes written must denote exactly the intended table
         intended = ([list(hdr)] if op["header"] else []) + [list(r) for r in rows]
-        if BAD_BYTES not in before and not any(len(cell) > limit for row in intended for cell in row):
-            denoted = list(csv.reader(io.StringIO(before.decode("utf-8"), newline=""), delimiter=op["sep"] or "\t"))
+        if BAD_BYTES not in before:
+            denoted = _read_table(before.decode("utf-8"), op["sep"] or "\t")
             if denoted != intended:
                 from ..env import HarnessError
                 raise HarnessError(f"materialised file does not denote the intended table: {denoted!r} != {intended!r}")
@@ -661,7 +673,7 @@ class C16Machine(Machine):
                             {"why": why, "first_failing_row": first_fail, "op": _short(op)})
         try:
             text = after.decode("utf-8")
-            got = list(csv.reader(io.StringIO(text, newline=""), delimiter=op["sep"] or "\t"))
+            got = _read_table(text, op["sep"] or "\t")
         except Exception as e:  # noqa: BLE001
             raise Violation(PROP, "output_unreadable", site, {"exception": type(e).__name__, "op": _short(op)})
         want = ([list(hdr)] if op["header"] else []) + [new for new, _, _ in expected_rows]
@@ -815,9 +827,16 @@ class C16Machine(Machine):
             self.probe("pd_target_column")
         if target is not None and target == col:
             self.probe("pd_target_is_source")
-        want_cols = list(names) + ([target] if (target is not None and target not in names) else [])
-        if list(df.columns) != want_cols:
-            raise Violation(PROP, "columns_changed", site, {"got": [str(x) for x in df.columns], "want": [str(x) for x in want_cols]})
+        # the original columns keep their labels and relative order; a NEW target column appears exactly
+        # once - where it is put (pandas appends it; a library may insert it next to its source) is not stated
+        new_target = target is not None and target not in names
+        cols = list(df.columns)
+        kept = [x for x in cols if not (new_target and x == target)]
+        if kept != list(names) or (new_target and sum(1 for x in cols if x == target) != 1):
+            raise Violation(PROP, "columns_changed", site,
+                            {"got": [str(x) for x in cols], "want": [str(x) for x in names] + ([str(target)] if new_target else [])})
+        if new_target and cols[-1] != target:
+            self.event("pd_new_target_column_not_last")
         if list(df.index) != list(orig.index) or len(df) != len(rows) or list(df.index.names) != list(orig.index.names):
             raise Violation(PROP, "row_order_or_index_changed", site, {"op": _short(op)})
         for name in names:
